@@ -12,6 +12,7 @@ import (
 	"strings"
 	"sync/atomic"
 	"testing"
+	"time"
 
 	"github.com/gofrs/uuid"
 	"github.com/ory/x/networkx"
@@ -171,6 +172,7 @@ type engEnv struct {
 	lastDepth, lastWidth int
 	other                *ksql.Persister // one persister serving two networks selected by the context (C06)
 	eng                  *check.Engine   // the engine shared by all checks of this environment
+	hung                 bool            // a check did not return: the stream stops after the current case
 	ctxB                 context.Context
 }
 
@@ -349,6 +351,19 @@ func (e *engEnv) prepare(c *EngCase, o *Out) error {
 		return err
 	}
 	c.Tuples = stored
+	if c.BoundaryMember != nil {
+		extra := c.BoundaryMember(stored)
+		c.BoundaryMember = nil
+		if extra != nil {
+			if err := m.WriteRelationTuples(e.ctx, extra.internal()); err != nil {
+				return err
+			}
+			if stored, err = e.storedOrder(append(append([]Tup(nil), stored...), *extra)); err != nil {
+				return err
+			}
+			c.Tuples = stored
+		}
+	}
 	return nil
 }
 
@@ -431,6 +446,16 @@ func (e *engEnv) setLimits(c *EngCase) error {
 	return nil
 }
 
+// runFresh runs the check on an engine of its own (a freshly started server), with the
+// sequential checkgroup.
+func (e *engEnv) runFresh(c *EngCase) string {
+	shared := e.eng
+	e.eng = nil
+	defer func() { e.eng = shared }()
+	res, _ := e.runCheck(c, true)
+	return res
+}
+
 // runCheck runs one check with the sequential (det=true) or the real concurrent
 // checkgroup and returns the canonical result and the number of storage calls.
 func (e *engEnv) runCheck(c *EngCase, det bool) (res string, calls int64) {
@@ -462,6 +487,28 @@ func (e *engEnv) runCheck(c *EngCase, det bool) (res string, calls int64) {
 			res = fmt.Sprintf("panic:%v", r)
 		}
 	}()
-	r := e.eng.CheckRelationTuple(ctx, c.Query.internal(), c.RDepth)
-	return membStr(r.Membership) + "/" + errKind(r.Err), atomic.LoadInt64(&n)
+	// watchdog: a check that does not return (an internal page loop that never advances, a
+	// lost result) must not take the whole stream with it
+	type outcome struct {
+		res   string
+		calls int64
+	}
+	done := make(chan outcome, 1)
+	eng, q, rd := e.eng, c.Query.internal(), c.RDepth
+	go func() {
+		defer func() {
+			if r := recover(); r != nil {
+				done <- outcome{fmt.Sprintf("panic:%v", r), atomic.LoadInt64(&n)}
+			}
+		}()
+		r := eng.CheckRelationTuple(ctx, q, rd)
+		done <- outcome{membStr(r.Membership) + "/" + errKind(r.Err), atomic.LoadInt64(&n)}
+	}()
+	select {
+	case oc := <-done:
+		return oc.res, oc.calls
+	case <-time.After(time.Duration(envInt("VERIF_CHECK_WATCHDOG_S", 60)) * time.Second):
+		e.hung = true
+		return "hang/none", atomic.LoadInt64(&n)
+	}
 }
